@@ -19,7 +19,12 @@ def CS.fill (s : CS) (ci : Nat) : CS :=
   { s with positional := (List.range (s.P.cmd ci).args.length).map fun i => (ci, i), cmd := ci }
 
 /-- `skipPositional(s, n)` -/
-def CS.skipPositional (s : CS) (n : Nat) : CS := { s with positional := s.positional.drop n }
+def CS.skipPositional (s : CS) : Nat → CS
+  | 0 => s
+  | n + 1 =>
+    match s.positional with
+    | [] => s
+    | p :: ps => if (s.P.argAt p).isRemaining then s else CS.skipPositional { s with positional := ps } n
 
 /-- `passThrough(s, arg)`: a word the parser does not interpret goes to the next positional
     argument, or else to the remaining arguments -/
